@@ -555,6 +555,20 @@ MUTANTS = [
         """            for (base_node* n = my_waitset.last(); n != end; n = nxt) {
                 nxt = n->prev;""", """            for (base_node* n = my_waitset.last(); n != end; n = nxt) {
                 nxt = n->next;""")]),
+    dict(name='c02-pop-skips-invalid-entry-silently', prop='C02', clause='D4', edits=[(CQ_H,
+        """            r1::notify_bounded_queue_monitor(my_monitors, cbq_slots_avail_tag, target);
+        } while (!popped);
+    }""", """        } while (!popped);
+        r1::notify_bounded_queue_monitor(my_monitors, cbq_slots_avail_tag, target);
+    }""")]),
+    dict(name='c02-try-pop-skips-invalid-entry-silently', prop='C02', clause='D4', edits=[(CQ_H,
+        """        if (!popped) {
+            skipped_ticket(ticket);
+        }""", """        suppress_unused_warning(skipped_ticket);""")]),
+    dict(name='c02-try-pop-bounded-passes-empty-functor', prop='C02', clause='D4', edits=[(CQ_H,
+        """                r1::notify_bounded_queue_monitor(my_monitors, cbq_slots_avail_tag, skipped);
+            });""", """                suppress_unused_warning(skipped);
+            });""")]),
     # ---------------------------------------------------------------- C05
     dict(name='c05-simple-do-while', prop='C05', clause='D1', edits=[
         (PT_H, "        while( range.is_divisible() )\n            start.offer_work( split_obj, ed );", "        do {\n            start.offer_work( split_obj, ed );\n        } while( range.is_divisible() );")]),
@@ -1058,6 +1072,15 @@ BENIGN = [
         """            for (base_node* n = my_waitset.last(); n != end; n = next) {
                 next = n->prev;""", """            for (base_node* n = my_waitset.front(); n != end; n = next) {
                 next = n->next;""")]),
+    dict(name='c02-b-pop-announces-skipped-ticket-in-branch', prop='C02', edits=[(CQ_H,
+        """            r1::notify_bounded_queue_monitor(my_monitors, cbq_slots_avail_tag, target);
+        } while (!popped);
+    }""", """            if (!popped) {
+                r1::notify_bounded_queue_monitor(my_monitors, cbq_slots_avail_tag, target);
+            }
+        } while (!popped);
+        r1::notify_bounded_queue_monitor(my_monitors, cbq_slots_avail_tag, target);
+    }""")]),
     dict(name='c05-b-ratio-operands-commuted', prop='C05', edits=[('include/oneapi/tbb/blocked_range2d.h',
         "        if ( my_rows.size()*double(my_cols.grainsize()) < my_cols.size()*double(my_rows.grainsize()) ) {",
         "        if ( double(my_cols.grainsize())*my_rows.size() < double(my_rows.grainsize())*my_cols.size() ) {")]),
